@@ -146,6 +146,9 @@ class C03(PropCheck):
             out.append({"k": "chain", "root": "coro", "links": [rng.choice(chains.CORO_LINKS) for _ in range(n)],
                         "end": "trap", "two_points": False, "step": 0})
             out.append({"k": "chain", "root": "gen", "links": ["yield_from"] * n, "end": "trap", "two_points": False, "step": 0})
+        # the same chains under process-wide settings that must not matter
+        for c in [c for c in out if 2 <= len(c["links"]) <= 6][:40 if tier == "quick" else 400]:
+            out.append(dict(c, tblimit=rng.choice([0, 1, 2, -1])))
         for root in ("coro", "agen", "gen", "agen_thrown_out", "agen_closed_in_finally", "gen_thrown_out", "coro_thrown_out"):
             out.append({"k": "exhausted", "root": root})
         return out
@@ -242,12 +245,20 @@ class C03(PropCheck):
 
             from stackscope._lowlevel import InspectionWarning
 
-            with _w.catch_warnings(), _cl.redirect_stderr(_io.StringIO()):
-                if static_exit:
-                    # half of these chains are extracted by an application that runs with InspectionWarning as an error
-                    _w.simplefilter("error" if len(case["links"]) % 2 else "ignore", InspectionWarning)
-                st = stackscope.extract(ch.x)
-            st_nc = stackscope.extract(ch.x, with_contexts=False)
+            import sys as _sys
+            if "tblimit" in case:
+                # a process-wide setting that limits how tracebacks are *printed*; the path an exception takes does not depend on it
+                _sys.tracebacklimit = case["tblimit"]
+            try:
+                with _w.catch_warnings(), _cl.redirect_stderr(_io.StringIO()):
+                    if static_exit:
+                        # half of these chains are extracted by an application that runs with InspectionWarning as an error
+                        _w.simplefilter("error" if len(case["links"]) % 2 else "ignore", InspectionWarning)
+                    st = stackscope.extract(ch.x)
+                st_nc = stackscope.extract(ch.x, with_contexts=False)
+            finally:
+                if "tblimit" in case:
+                    del _sys.tracebacklimit
             env, ids = heap_env(ch.x)
             case["_env"] = env
             out = show(st, ids)
